@@ -354,3 +354,10 @@ package keeper
 //@   modifies all
 //@   ensures [no-coins-move] bankA2MN == old(bankA2MN) && bankSendN == old(bankSendN) && bankBurnN == old(bankBurnN) && burnN == old(burnN)
 //@   loop 0 invariant bankA2MN == old(bankA2MN) && bankSendN == old(bankSendN) && bankBurnN == old(bankBurnN) && burnN == old(burnN)
+
+// ---- C18: a send asks the bank for exactly one transfer of exactly the requested amount --------
+//@ func (Keeper).SendCoins
+//@   props C18
+//@   modifies bankXferN, bankXferOK, bankXferFrom, bankXferTo, bankXferCoins
+//@   ensures [one-transfer] bankXferN == old(bankXferN) + 1 && bankXferFrom == bytes(fromAddress) && bankXferTo == bytes(toAddress) && singleAmt(bankXferCoins) == old(bigv[amount.i]) && old(bigv[amount.i]) >= 0
+//@   ensures [outcome] (result == nil) == bankXferOK
